@@ -7,7 +7,7 @@ def chk(pid, category, text, note, technique, design_ref):
     CHECKS[pid] = dict(category=category, text=text, note=note, technique=technique, design_ref=design_ref)
 
 chk("C18", "model_checking",
-    "Explicit-state exploration of operation sequences on the real FinalityLedger (IAVL over goleveldb): every sequence of the tier's length over a 26-op alphabet (unpruned DFS) and a BFS with state de-duplication to the tier's depth, each step compared with a map-with-two-overlays model, every commit/reopen re-reading every historical version. Exhaustive within the stated bounds (2 keys, 2 values, length/depth), which is where delete/re-create and overlay-leak bugs live.",
+    "Explicit-state exploration of operation sequences on the real FinalityLedger (IAVL over goleveldb): every sequence of the tier's length over a 30-op alphabet (incl. read-modify-write on the same item object; unpruned DFS) and a BFS with state de-duplication to the tier's depth, each step compared with a map-with-two-overlays model, every commit/reopen re-reading every historical version. Exhaustive within the stated bounds (2 keys, 2 values, length/depth), which is where delete/re-create and overlay-leak bugs live.",
     "IAVL/goleveldb trusted; cancelSet/cancelDel and the consensus-delete mirroring follow the implementation's documented behaviour (statement is silent); bounds as in evidence.",
     "explicit-state exploration of op sequences on the real ledger vs map model (DFS + BFS with state hashing)", "§5 C18")
 
